@@ -25,7 +25,7 @@ BUILT["C14"] = ("E1", "exploration", "deterministic simulation: real dialer and 
   "Seeded search over protocol lists x version x payloads x pipe configurations x schedules (plus connection resets in the heavy profile); oracle: both sides agree on the first common protocol or both fail with Failed, optimistic dialer learns failure at first read, payload bytes arrive complete and in order, and the tapped wire equals a hand-written reference encoding",
   "assumes the transport buffers one negotiation flight (>= 40 kB per direction; smaller buffers deadlock multistream-select by design); dialer names valid in the strict scenario", "5/C14")
 BUILT["C15"] = ("E1", "fault_enumeration", "deterministic simulation with hostile-peer fault enumeration: scripted raw peer bytes x chunking schedules against the real listener/dialer; reference encoder/parser as oracle",
-  "Enumerated hostile cases (over-long varints, 16383/16384 frames, 1000 vs 1001 protocols, names without '/', missing newline, wrong header, bit flips, truncation at every offset) each under drawn chunkings and schedules; honest runs compare the full wire image with a reference encoding; panics are violations",
+  "Enumerated hostile cases (over-long varints, 16383/16384 frames, 1000 vs 1001 protocols, names without '/', missing newline, wrong header, bit flips, truncation at every offset) each under drawn chunkings and schedules; honest runs compare the full wire image with a reference encoding; outgoing messages beyond the frame limit must be refused, not framed with a 3-byte prefix; panics are violations",
   "reference encoder/parser written from the spec; case list is finite, chunkings sampled", "5/C15")
 BUILT["C24"] = ("E1", "exploration", "deterministic simulation: real mplex / yamux pairs, 2 driver units + up to 16 substream units under a seeded scheduler, pipe chunking/readiness faults, connection reset, bulk transfers past the muxers' windows; tagged-byte stream-equality oracle",
   "Seeded search over substream plans x muxer knobs x pipe configurations x unit interleavings; oracle per substream and direction: read bytes are a prefix of written bytes (equal after a clean close), EOF only after close/drop, no cross-talk (every byte encodes stream tag, direction, offset)",
@@ -55,8 +55,8 @@ BUILT["C49"] = ("E1", "exploration", "deterministic simulation with virtual cloc
   "Seeded search over limits x volumes x stalls x chunkings x schedules with the virtual clock advanced past the deadline: prefix/equality of forwarded bytes, overshoot <= one 8 KiB buffer per direction, error after exceeding max_circuit_bytes, TimedOut when the deadline passes with nothing to forward, Ok and complete delivery within limits",
   "CopyFuture reached through the cfg(libp2p_verif) facade; time = patched futures-timer", "5/C49")
 BUILT["C56"] = ("E1", "exploration", "deterministic simulation: pair of real webrtc-utils Streams over a clonable simulated data channel with a raw flag injector; operation histories checked against a reference half-close state machine",
-  "exact scenario: every result of 10..60 drawn operations (read/write/flush/close/close_read/inject FIN|STOP_SENDING|RESET) equals the reference state machine fed with the same message sequence; interleaved scenario: half-done operations, dropped streams (DropListener), spurious Pending: no panic, ConnectionReset is sticky, data read is a prefix of data written",
-  "flag messages carry no data; frames written atomically into the simulated channel", "5/C56")
+  "exact scenario: every result of 10..60 drawn operations (read with small or large buffers/write/flush/close/close_read/inject FIN|STOP_SENDING|RESET alone or with a payload) equals the reference state machine fed with the same message sequence; interleaved scenario: half-done operations, dropped streams (DropListener), spurious Pending: no panic, ConnectionReset is sticky, data read is a prefix of data written",
+  "frames written atomically into the simulated channel", "5/C56")
 E2_NOTE = "stub stack: SimTransport hands (PeerId, SimMuxer) to the Swarm, so security/muxing are stubs here (real ones are covered by E1 checks); connection/listener ids come from the cfg(libp2p_verif) thread-local counters so that a run is a function of its seed"
 BUILT["C01"] = ("E2", "exploration", "deterministic simulation: 2-5 real Swarms over a simulated transport/executor/clock, seeded operation + fault sequences, reference model folded from returned events, history check at quiescence",
   "Seeded search over workloads (dials with every PeerCondition, behaviour dials, closes, disconnects, resets, denials, refused/hanging/late dials, failing/hanging upgrades) and task interleavings; online: no double resolution, no ConnectionClosed without/after close, no establishment without a pending attempt; at the fault-free end: nothing unresolved, nothing left established, behaviour lifecycle sequence == SwarmEvent lifecycle sequence",
@@ -136,7 +136,7 @@ BUILT["C34"] = ("E3", "exploration", "seeded ConfigBuilder setter sequences; acc
   "Default and per-topic mesh parameters 0..13, transmit sizes around 100, history windows 0..6; 0..24 peers; 2..8 heartbeats",
   E3_NOTE + "; one known finding (per-topic parameters without per-topic max_transmit_size are not validated; an existing unit test depends on it)", "5/C34")
 E2P_NOTE = "stub stack below the protocol: SimTransport/SimMuxer (security and muxing are covered by E1); the behaviour under test, its handlers, the Swarm, the pool and multistream-select are real; counterpart peers are scripted (raw uvi-framed protobuf written by the harness) where the property quantifies over arbitrary/byzantine requests"
-BUILT["C47"] = ("E2", "exploration", "deterministic simulation: real relay::Behaviour in a real Swarm, scripted hop/stop clients with several connections, virtual-clock expiry; the relay's own event stream folded into active reservations/circuits and checked after every event",
+BUILT["C47"] = ("E2", "exploration", "deterministic simulation: real relay::Behaviour in a real Swarm, scripted hop/stop clients with several connections, virtual-clock expiry; client-side ground truth (accepted, unexpired reservations/circuits on open connections) and the relay's own event stream both checked against the limits",
   "Seeded limits (1..6 total, 1..3 per peer), RESERVE/CONNECT/close/time sequences incl. racing requests; invariants on reservations per peer/total and circuits per involved peer/total",
   E2P_NOTE, "5/C47")
 BUILT["C48"] = ("E2", "exploration", "seeded timestamped request sequences against the real per-peer and per-IP limiter (built through relay::Config); sliding-window token-bucket oracle over every pair of accepted requests",
@@ -146,7 +146,7 @@ BUILT["C37"] = ("E3", "exploration", "deterministic simulation over the virtual 
   "bucket sizes 1..3, pending timeouts 1..60 s, 12..40 hashed peer ids; capacity, uniqueness, bucket index, local key, status/LRU ordering, content equality; applied pending entries: timeout elapsed, victim = least recently updated disconnected entry",
   "kad facade wrappers (cfg(libp2p_verif)) expose the crate-private table", "5/C37")
 BUILT["C39"] = ("E3", "exploration", "deterministic simulation: the real closest / disjoint / fixed peer iterators driven by a simulated query pool over seeded peer graphs with seeded response orders, failures, silence and late answers on the virtual clock",
-  "8..40 peers, parallelism 1..4, num_results 1..6: in-flight bounds, termination within a step budget once every request is resolved or timed out, results = responders only, sorted, bounded; on natural termination no learned closer peer uncontacted or waiting (plain iterator)",
+  "8..40 peers, parallelism 1..4, num_results 1..6: in-flight bounds, termination within a step budget once every request is resolved or timed out, results = responders only, sorted, bounded; fixed iterator over lists with repeated peers; on natural termination no learned closer peer uncontacted or waiting (plain iterator)",
   "the 'at most num_results' clause is judged for the plain iterator; the disjoint iterator documents that it returns the union of its paths' results (bound parallelism*num_results)", "5/C39")
 BUILT["C41"] = ("E3", "exploration", "seeded operation sequences against the real MemoryStore compared with a reference map after every operation",
   "limits 1..4 records, 4..12 value bytes, 1..3 providers per key, 1..3 provided keys; put/get/remove/add_provider/remove_provider; provided() == local provider records",
